@@ -56,6 +56,9 @@ import os as _os
 
 # statement coverage of the interpreted source (diagnostic only; enabled by VERIF_COVER=1, see tools/coverage.py)
 COVER = set() if _os.environ.get("VERIF_COVER") else None
+# statements executed while a rule asked for a trace (rules/sem_lazy.py: lines reached by the twin with pending signs)
+TRACE = None
+_LAZY_FRAMES = []
 
 
 class _OsStub:
@@ -150,6 +153,17 @@ class Evaluator:
         for n in names:
             if n not in env:
                 raise Unsupported(f"missing argument {n} calling {finfo.fq}")
+        if TRACE is not None and any(isinstance(v, Obj) and v.fields.get("_phases") for v in env.values()):
+            # a frame entered with pending signs on one of its operands: the statements executed inside its dynamic extent
+            # are recorded against it (rules/sem_lazy.py)
+            _LAZY_FRAMES.append(finfo.fq)
+            try:
+                return self._run_body(finfo, node, env)
+            finally:
+                _LAZY_FRAMES.pop()
+        return self._run_body(finfo, node, env)
+
+    def _run_body(self, finfo, node, env):
         if self._is_generator(finfo):
             outer, self.yields = self.yields, []
             try:
@@ -182,6 +196,9 @@ class Evaluator:
     def stmt(self, s, env, fi):
         if COVER is not None:
             COVER.add((fi.module.name, s.lineno))
+        if TRACE is not None:
+            for fq in _LAZY_FRAMES:
+                TRACE.add((fq, fi.module.relpath, s.lineno))
         self.steps += 1
         if self.steps > self.max_steps:
             raise Unsupported("step budget exceeded")
@@ -324,7 +341,7 @@ class Evaluator:
                     self.assign(tt, vv, env, fi)
                 return
             if len(vs) != len(t.elts):
-                raise Unsupported("unpack length")
+                raise ValueError(f"wrong number of values to unpack (expected {len(t.elts)}, got {len(vs)})")
             for tt, vv in zip(t.elts, vs):
                 self.assign(tt, vv, env, fi)
         elif isinstance(t, ast.Subscript):
